@@ -66,6 +66,10 @@ pub enum WeightMode {
     AllOne,
     Family,
     Random,
+    /// 1 and the f32 just below 1
+    NearOne,
+    /// powers of two and values one ulp around them: products are exact or one rounding away
+    Binary,
 }
 
 fn weight_for(rng: &mut Rng, mode: WeightMode) -> f32 {
@@ -73,6 +77,8 @@ fn weight_for(rng: &mut Rng, mode: WeightMode) -> f32 {
         WeightMode::AllOne => 1.0,
         WeightMode::Family => WEIGHT_FAMILY[rng.usize_below(WEIGHT_FAMILY.len())],
         WeightMode::Random => random_weight(rng),
+        WeightMode::NearOne => [1.0f32, f32::from_bits(0x3f7f_ffff)][rng.usize_below(2)],
+        WeightMode::Binary => [0.5f32, 0.25, f32::from_bits(0x3f7f_ffff), f32::from_bits(0x3eff_ffff), f32::from_bits(0x3f00_0001), 0.75, 1.0][rng.usize_below(7)],
     }
 }
 
